@@ -15,6 +15,18 @@ def run(ctx: Ctx) -> list[Ob]:
     obs += r4.query_contracts(ctx, {"integrate"})
     obs += r13.r13d(ctx)
     obs += r8.scope_membership(ctx, "cirkit.backend.torch.queries.IntegrateQuery.scopes_to_mask", "out-of-scope:membership")
+    obs.append(
+        r8.dominates_call(
+            ctx,
+            "cirkit.backend.torch.queries.IntegrateQuery._layer_fn",
+            {"isinstance(layer, TorchInputLayer)": True, "layer.num_variables > 1": False, **{k: False for k in r8.ANY_SPELLINGS}},
+            "integrate",
+            "nothing-selected",
+            "when no variable of an input layer is selected the layer's plain output is returned and integrate() is not called: input layers outside the "
+            "integration scope may not be integrable at all (Embedding, the constant layers of operator results)",
+        )
+    )
+    obs += r8.mask_selects(ctx, "cirkit.backend.torch.queries.IntegrateQuery._layer_fn", "integrate_vars_mask", "mask-selects")
     return obs
 
 
@@ -30,6 +42,7 @@ SPEC = PropSpec(
         "executed): log_partition_function() and integrate() of every exponential-family layer return (F, 1, Ko) in every "
         "parameterisation, and IntegrateQuery._layer_fn applied to every concrete input layer with a mask of batch 1 or B returns "
         "(F, B, Ko) -- the torch.where selection broadcasts for every batch and fold size, not only when they coincide. R13d: the per-sample rows of the mask built by scopes_to_mask are addressed with the counter of enumerate over the batch sequence itself (the one whose length sizes the mask), never over a filtered copy -- 'per sample' means sample k's scope lands in row k even when an earlier sample marginalises nothing; R8m: the out-of-scope refusal derives from the circuit's scope used as a set (difference / subset / membership), not from a bound on the largest id."
+        " R8 nothing-selected: in _layer_fn the call of layer.integrate() is unreachable when torch.any(<mask of this layer>) is false -- input layers outside the integration scope (Embedding, constant layers of operator results) may have no integral at all. R8s: the per-layer mask is only ever a selector (torch.where / masked assignment), never an arithmetic factor -- 0 * -inf is nan in log space."
     ),
     not_decided="numerical equality with the symbolic integrate; the mask arithmetic of _layer_fn.",
     run=run,
